@@ -23,6 +23,9 @@ Clauses(ev) ==
     V_Reproducible    |-> ev.same_stream_same_velocities,
     V_StreamAdvances  |-> ev.stream_advanced,
     V_NoForeign       |-> ev.foreign = 0,
+    \* C07: the noise of a stochastic integrator is decided by the job's engine stream - two jobs with different streams never
+    \* propagate with the same noise, whatever the engine's own settings say
+    V_StreamDecides   |-> ev.stream_decides,
     V_Distribution    |-> ev.stat_checked => (ev.mean_ok /\ ev.var_ok),
     \* the ensemble's zero_momentum setting is what every modify_velocities call of a move is handed
     V_RequestReachesEngine |-> ev.request_ok ]
